@@ -2,6 +2,8 @@ package main
 
 import (
 	"fmt"
+	"go/ast"
+	"go/token"
 	"go/types"
 	"os"
 	"path/filepath"
@@ -147,6 +149,11 @@ func (r *report) nextSkeleton() {
 		}
 	}
 	add(skelOb{name: "gojq.(*env).Next/skeleton/O1-handler-loops-bounded", detail: "O1: every cycle that avoids the dispatch is a range loop over an int, slice or map (bounded by its operand)", ok: badLoop == "", why: badLoop})
+	// O7: re-entry guard. After Next has emitted an error (or a value) it is resumed at the same pc
+	// with backtrack set; a handler that can emit must therefore begin by leaving when backtrack is set.
+	ok7, why7, n7 := reentryGuards(fn)
+	add(skelOb{name: "gojq.(*env).Next/skeleton/O7-reentry-guard", detail: fmt.Sprintf("O7: every opcode handler that assigns a non-nil err or returns a value (%d handlers; opiter, whose re-entry is the iteration itself, excepted) begins with `if backtrack { ... }` ending in a break or goto: advancing an iterator that has emitted an error re-enters the handler without re-running it", n7), ok: ok7, why: why7})
+
 }
 
 func fieldName(x *ssa.FieldAddr) string {
@@ -256,4 +263,101 @@ func loopContains(fn *ssa.Function, head, tail, x *ssa.BasicBlock) bool {
 		}
 	}
 	return in[x]
+}
+
+// reentryGuards works on the syntax of the real function (the switch over code.op).
+func reentryGuards(fn *ssa.Function) (bool, string, int) {
+	fd, _ := fn.Syntax().(*ast.FuncDecl)
+	if fd == nil || fd.Body == nil {
+		return false, "no syntax for (*env).Next", 0
+	}
+	var sw *ast.SwitchStmt
+	ast.Inspect(fd.Body, func(n ast.Node) bool {
+		if x, ok := n.(*ast.SwitchStmt); ok && sw == nil {
+			if se, ok := x.Tag.(*ast.SelectorExpr); ok && se.Sel.Name == "op" {
+				sw = x
+				return false
+			}
+		}
+		return true
+	})
+	if sw == nil {
+		return false, "no switch over code.op", 0
+	}
+	isNil := func(e ast.Expr) bool { id, ok := e.(*ast.Ident); return ok && id.Name == "nil" }
+	emits := func(stmts []ast.Stmt) string {
+		what := ""
+		for _, st := range stmts {
+			ast.Inspect(st, func(n ast.Node) bool {
+				switch x := n.(type) {
+				case *ast.FuncLit:
+					return false
+				case *ast.ReturnStmt:
+					what = "returns a value"
+				case *ast.AssignStmt:
+					for i, l := range x.Lhs {
+						if id, ok := l.(*ast.Ident); ok && id.Name == "err" && x.Tok == token.ASSIGN {
+							if len(x.Rhs) == len(x.Lhs) && isNil(x.Rhs[i]) {
+								continue
+							}
+							what = "assigns err"
+						}
+					}
+				}
+				return true
+			})
+		}
+		return what
+	}
+	guarded := func(st ast.Stmt) bool {
+		ifs, ok := st.(*ast.IfStmt)
+		if !ok || ifs.Init != nil || ifs.Else != nil {
+			return false
+		}
+		if id, ok := ifs.Cond.(*ast.Ident); !ok || id.Name != "backtrack" {
+			return false
+		}
+		if len(ifs.Body.List) == 0 {
+			return false
+		}
+		br, ok := ifs.Body.List[len(ifs.Body.List)-1].(*ast.BranchStmt)
+		return ok && (br.Tok == token.BREAK || br.Tok == token.GOTO) && br.Label != nil
+	}
+	n := 0
+	for _, c := range sw.Body.List {
+		cc := c.(*ast.CaseClause)
+		if len(cc.List) == 0 || len(cc.Body) == 0 {
+			continue
+		}
+		names := []string{}
+		iter := false
+		for _, e := range cc.List {
+			if id, ok := e.(*ast.Ident); ok {
+				names = append(names, id.Name)
+				if id.Name == "opiter" {
+					iter = true
+				}
+			}
+		}
+		if iter {
+			continue
+		}
+		rest := cc.Body
+		g := guarded(cc.Body[0])
+		if g {
+			rest = cc.Body[1:]
+		}
+		w := emits(rest)
+		if w == "" {
+			continue
+		}
+		n++
+		if !g {
+			return false, fmt.Sprintf("the handler of %s %s but does not begin with a backtrack guard that leaves it", strings.Join(names, ", "), w), n
+		}
+	}
+	if n == 0 {
+		return false, "no emitting handler found (the scan no longer matches the function)", 0
+	}
+	return true, "", n
 }
